@@ -64,6 +64,10 @@ func (c c13Config) run() {
 		b = b.WithBackoffFactor(c.d, c.maxDelay, c.factor)
 	case "random":
 		b = b.WithRandomDelay(c.d, 4*c.d)
+	case "fixed-after-backoff-random": // the last delay setting counts: a fixed delay
+		b = b.WithBackoff(c.d, 16*c.d).WithRandomDelay(c.d, 4*c.d).WithDelay(c.d)
+	case "random-after-backoff":
+		b = b.WithBackoff(c.d, 16*c.d).WithRandomDelay(c.d, 4*c.d)
 	case "fn-const":
 		b = b.WithDelay(c.d).WithDelayFunc(func(failsafe.ExecutionAttempt[int]) time.Duration { fnCalls++; return 3 * c.d })
 	case "fn-minus1":
@@ -145,7 +149,7 @@ func (c c13Config) run() {
 		switch {
 		case fnVal != -1:
 			base = float64(fnVal)
-		case c.kind == "fixed" || c.kind == "fn-minus1":
+		case c.kind == "fixed" || c.kind == "fn-minus1" || c.kind == "fixed-after-backoff-random":
 			base = float64(c.d)
 		case c.kind == "backoff" || c.kind == "fn-alternating":
 			backoffK++
@@ -155,7 +159,7 @@ func (c c13Config) run() {
 			}
 			base = math.Min(float64(c.d)*math.Pow(f, float64(backoffK)), md)
 			mults = backoffK
-		case c.kind == "random":
+		case c.kind == "random" || c.kind == "random-after-backoff":
 			isRange, lo, hi = true, float64(c.d), float64(4*c.d)
 		}
 		// jitter envelope
@@ -233,6 +237,7 @@ func c13Configs(tier string) []c13Config {
 		mdMul  time.Duration
 	}
 	var kinds []kc
+	kinds = append(kinds, kc{"fixed-after-backoff-random", 0, 0}, kc{"random-after-backoff", 0, 0})
 	kinds = append(kinds, kc{"fixed", 0, 0}, kc{"random", 0, 0}, kc{"fn-const", 0, 0}, kc{"fn-minus1", 0, 0}, kc{"fn-negative", 0, 0}, kc{"fn-alternating", 0, 0})
 	for _, f := range []float32{1.5, 2, 10} {
 		for _, m := range []time.Duration{4, 1000} {
@@ -281,7 +286,7 @@ func init() {
 	register(&CheckDef{
 		Property:  "C13",
 		Technique: "exhaustive enumeration of delay configurations, each executed on the real retry policy under the virtual clock with every random draw an enumerated choice point",
-		Rule: "a program = delay kind (fixed, backoff x factor x maxDelay, random range, four delay functions) x magnitude (1us .. 7h+1ns) x jitter (none, three durations, three factors) x max duration (none, 2.5 delays, huge) x attempt duration, plus a caller context whose own deadline falls inside the first or a later delay, eight consecutive failures; " +
+		Rule: "a program = delay kind (fixed, backoff x factor x maxDelay, random range, four delay functions, two builder sequences that replace an earlier delay setting) x magnitude (1us .. 7h+1ns) x jitter (none, three durations, three factors) x max duration (none, 2.5 delays, huge) x attempt duration, plus a caller context whose own deadline falls inside the first or a later delay, eight consecutive failures; " +
 			"each draw of the first 3 (quick) / 5 (thorough) is enumerated over {0, 0.5, 1-2^-53}; distinct = distinct sequences of scheduled delays",
 		Assume: []string{"the jitter and random-range formulas are monotone in the draw, so the extreme draws bound every draw", "float32 arithmetic: equality with the real-number formula up to 2^-21 relative error per multiplication",
 			"configurations the builder documentation gives no meaning to (maxDelay < delay, delayMin > delayMax, factor < 1) are outside the alphabet"},
